@@ -173,6 +173,7 @@ Section QueueBound.
 Variable c : fcfg.
 Variable L : N.
 Variable m : dmode.
+Variable K : N.    (* what the queues may already hold when the settings come into force *)
 Hypothesis Hd : c_discard c = Some (L, m).
 
 Definition disc_count (q : list job) : N := len (filter (discardable c) q).
@@ -181,8 +182,8 @@ Definition disc_count (q : list job) : N := len (filter (discardable c) q).
    hold one job with limit 0 in Newest mode, see docs/notes *)
 Definition dead_bound : N := match m with Oldest => L | Newest => N.max L 1 end.
 Definition wbound (w : worker) : N := if w_alive w then L else dead_bound.
-Definition wq_ok (w : worker) : Prop := factory_queueing c = false -> len (w_q w) <= wbound w.
-Definition fq_ok (q : list job) : Prop := disc_count q <= L.
+Definition wq_ok (w : worker) : Prop := factory_queueing c = false -> len (w_q w) <= N.max (wbound w) K.
+Definition fq_ok (q : list job) : Prop := disc_count q <= N.max L K.
 Definition QI (s : fstate) : Prop := fq_ok (f_q s) /\ Forall wq_ok (f_pool s).
 
 Lemma wsettings_nfq : factory_queueing c = false -> wsettings c = Some (L, m).
@@ -215,7 +216,7 @@ Proof.
            rewrite Hav in Eshed. cbn [negb andb] in Eshed. apply N.leb_gt in Eshed. lia.
   - (* Oldest *)
     cbn [negb andb fst set_q w_q w_alive]. rewrite Ha.
-    pose proof (skipn_len (w_q w1)). destruct (w_alive w); exact H.
+    pose proof (skipn_len (w_q w1)). destruct (w_alive w); lia.
 Qed.
 
 Lemma enqueue_job_id w j : w_id (fst (enqueue_job c w j)) = w_id w.
@@ -544,9 +545,9 @@ Proof.
   intros H HQ; inversion H; subst. eapply IH; [eassumption|]. eapply finish_w_QI; eassumption.
 Qed.
 
-Lemma step_QI s o : QI s -> QI (fst (step c s o)).
+Lemma step_QI0 s o : QI s -> QI (fst (step0 c s o)).
 Proof.
-  intros HQ. destruct o as [j|i| |i|i|n| |dt| | |i|i]; cbn [step].
+  intros HQ. destruct o as [j|i| |i|i|n| |dt| | |i|i|d]; cbn [step0].
   11:{ destruct (f_stopped s); [exact HQ|]. destruct (find_w (f_pool s) i) as [w|] eqn:Ef; [|exact HQ].
        destruct (w_alive w && match w_cur w with None => true | Some _ => false end) eqn:Ec; [|exact HQ].
        cbn [fst]. destruct HQ as [H1 H2]. split; [exact H1|]. cbn [set_pool f_pool].
@@ -556,6 +557,9 @@ Proof.
   11:{ destruct (f_stopped s); [exact HQ|]. destruct (find_w (f_pool s) i) as [w|]; [|exact HQ].
        destruct (w_alive w); [exact HQ|]. destruct (worker_died c s i) as [s' e] eqn:E. cbn [fst].
        eapply worker_died_QI; eassumption. }
+  11:{ destruct (f_stopped s); [exact HQ|].
+       destruct (with_after (set_discard s d, [])) as [s' e] eqn:E. cbn [fst].
+       eapply with_after_QI; [exact E|]. exact HQ. }
   - destruct (f_stopped s); [exact HQ|].
     destruct (with_after (dispatch c s j)) as [s' e] eqn:E. cbn [fst].
     eapply with_after_QI; [exact E|]. destruct (dispatch c s j) as [s0 e0] eqn:Ed. cbn [fst].
@@ -589,28 +593,246 @@ Proof.
   split; assumption.
 Qed.
 
-Lemma state_after_QI ops : forall s, QI s -> QI (state_after c s ops).
-Proof. induction ops as [|o r IH]; intros s HQ; cbn [state_after]; [exact HQ|]. apply IH. apply step_QI. exact HQ. Qed.
-
 End QueueBound.
 
-(* For every configuration with a limit L (any L, both modes, every router and queue kind) and
-   EVERY label sequence (dispatch bursts, completions, failures, kills, stopping workers, resizes,
-   drain, time), in the state reached: the factory queue holds at most L discardable jobs, and
-   when the router queues at the workers every worker's own queue holds at most L jobs -- except
-   that the queue of a worker whose actor is stopping (no dispatch possible until its supervision
-   event is handled) may hold max(L, 1) jobs in Newest mode, i.e. one job when L = 0. *)
+(* ---- the discard settings change only at an UpdateSettings label ---- *)
+
+Lemma route_inner_disc c s j hint s' r e : route_inner c s j hint = (s', r, e) -> f_discard s' = f_discard s.
+Proof.
+  unfold route_inner. destruct (choose c (f_rs s) j (f_size s) hint (f_pool s)) as [rs' [i|]];
+    [|intros H; inversion H; reflexivity].
+  cbn [set_rs f_pool]. destruct (find_w (f_pool s) i) as [w|]; [|intros H; inversion H; reflexivity].
+  destruct (enqueue_job c w j) as [w' ev]. intros H; inversion H; reflexivity.
+Qed.
+
+Lemma route_disc c s j hint s' r e : route c s j hint = (s', r, e) -> f_discard s' = f_discard s.
+Proof.
+  unfold route. destruct (c_rate c) as [[rc ini]|]; [|apply route_inner_disc].
+  destruct (f_bucket s) as [b|]; [|apply route_inner_disc].
+  destruct (check rc b (f_now s)) as [b' ok]. destruct ok.
+  - destruct (route_inner c (set_bucket s (Some b')) j hint) as [[s2 r2] e2] eqn:E.
+    apply route_inner_disc in E. intros H. destruct r2; inversion H; subst; exact E.
+  - intros H; inversion H; subst. destruct hint as [h|]; [destruct (avail_in _ h)|]; reflexivity.
+Qed.
+
+Lemma try_route_disc c fuel : forall s hint s' e, try_route c fuel s hint = (s', e) -> f_discard s' = f_discard s.
+Proof.
+  induction fuel as [|f IH]; intros s hint s' e; cbn [try_route]; [intros H; inversion H; reflexivity|].
+  destruct (pop_front (c_queue c) (f_q s)) as [[j q']|]; [|intros H; inversion H; reflexivity].
+  destruct (choose c (f_rs s) j (f_size s) hint (f_pool s)) as [rs' [i|]]; [|intros H; inversion H; reflexivity].
+  destruct (route c (set_fq (set_rs s rs') q') j (Some i)) as [[s2 r] e0] eqn:Er.
+  apply route_disc in Er. cbn [set_fq set_rs f_discard] in Er. intros H. destruct r.
+  - inversion H; subst. exact Er.
+  - inversion H; subst. exact Er.
+  - destruct (try_route c f s2 hint) as [s3 e'] eqn:Et. inversion H; subst.
+    rewrite (IH _ _ _ _ Et). exact Er.
+Qed.
+
+Lemma mark_available_disc c s i : f_discard (mark_available c s i) = f_discard s.
+Proof. unfold mark_available. destruct (avail_in (f_pool s) i); reflexivity. Qed.
+
+Lemma dispatch_disc c s j s' e : dispatch c s j = (s', e) -> f_discard s' = f_discard s.
+Proof.
+  unfold dispatch. destruct (f_drain s); try (intros H; inversion H; reflexivity).
+  destruct (route c s j None) as [[s1 r] e1] eqn:Er. apply route_disc in Er. intros H.
+  destruct r; inversion H; subst; try exact Er.
+  destruct (maybe_enqueue c (f_q s1) j) as [q' e']. inversion H; subst. exact Er.
+Qed.
+
+Lemma worker_finished_disc c s i s' e : worker_finished c s i = (s', e) -> f_discard s' = f_discard s.
+Proof.
+  unfold worker_finished. destruct (find_w (f_pool s) i) as [w|]; [|intros H; inversion H; reflexivity].
+  destruct (worker_complete w) as [w' e1]. destruct (w_drain w').
+  - destruct (w_working w'); intros H; inversion H; reflexivity.
+  - unfold try_route_next.
+    match goal with |- context [try_route c ?f ?st (Some i)] => destruct (try_route c f st (Some i)) as [s2 e'] eqn:Et end.
+    intros H; inversion H; subst. rewrite mark_available_disc. apply try_route_disc in Et. exact Et.
+Qed.
+
+Lemma worker_died_disc c s i s' e : worker_died c s i = (s', e) -> f_discard s' = f_discard s.
+Proof.
+  unfold worker_died. destruct (find_w (f_pool s) i) as [w|]; [|intros H; inversion H; reflexivity].
+  destruct (w_drain w && match w_q w with [] => true | _ => false end); [intros H; inversion H; reflexivity|].
+  unfold build, try_route_next. cbn [set_builds f_pool].
+  set (w0 := mkW (w_id w) None (w_q w) (w_drain w) (assoc i (f_builds s) + 1) true).
+  destruct (match w_q w0 with j :: r => dispatch_job (set_q w0 r) j | [] => (w0, []) end) as [w1 e1].
+  match goal with |- context [try_route c ?f ?st (Some i)] => destruct (try_route c f st (Some i)) as [s2 e'] eqn:Et end.
+  intros H; inversion H; subst. rewrite mark_available_disc. apply try_route_disc in Et. exact Et.
+Qed.
+
+Lemma grow_disc c k : forall s from, f_discard (grow c s from k) = f_discard s.
+Proof.
+  induction k as [|k IH]; intros s from; cbn [grow]; [reflexivity|]. rewrite IH.
+  destruct (find_w (f_pool s) from); [rewrite mark_available_disc|]; reflexivity.
+Qed.
+
+Lemma shrink_disc c k : forall s from, f_discard (shrink c s from k) = f_discard s.
+Proof.
+  induction k as [|k IH]; intros s from; cbn [shrink]; [reflexivity|]. rewrite IH.
+  destruct (find_w (f_pool s) from) as [w|]; [destruct (w_working w)|]; reflexivity.
+Qed.
+
+Lemma route_queued_disc c n : forall s s' e, route_queued c s n = (s', e) -> f_discard s' = f_discard s.
+Proof.
+  induction n as [|k IH]; intros s s' e; cbn [route_queued]; [intros H; inversion H; reflexivity|].
+  destruct (f_q s); [intros H; inversion H; reflexivity|].
+  unfold try_route_next. destruct (try_route c _ s None) as [s1 e1] eqn:Et.
+  destruct (route_queued c s1 k) as [s2 e2] eqn:Er. intros H. inversion H; subst.
+  rewrite (IH _ _ _ Er). eapply try_route_disc; eassumption.
+Qed.
+
+Lemma route_backlog_disc c n : forall s s' e, route_backlog c s n = (s', e) -> f_discard s' = f_discard s.
+Proof.
+  induction n as [|k IH]; intros s s' e; cbn [route_backlog]; [intros H; inversion H; reflexivity|].
+  destruct (f_q s) eqn:Eq; [intros H; inversion H; reflexivity|].
+  unfold try_route_next. destruct (try_route c _ s None) as [s1 e1] eqn:Et.
+  destruct (len (j :: l) <=? len (f_q s1)).
+  - intros H. inversion H; subst. eapply try_route_disc; eassumption.
+  - destruct (route_backlog c s1 k) as [s2 e2] eqn:Er. intros H. inversion H; subst.
+    rewrite (IH _ _ _ Er). eapply try_route_disc; eassumption.
+Qed.
+
+Lemma resize_disc c s n s' e : resize c s n = (s', e) -> f_discard s' = f_discard s.
+Proof.
+  unfold resize. destruct (n =? 0); [intros H; inversion H; reflexivity|].
+  destruct (f_size s <? N.min pool_max n).
+  - intros H. assert (E : f_discard s' = f_discard (set_size (grow c s (f_size s) (N.to_nat (N.min pool_max n - f_size s))) (N.min pool_max n))).
+    { destruct (factory_queueing c); [eapply route_queued_disc|eapply route_backlog_disc]; eassumption. }
+    rewrite E. cbn [set_size f_discard]. apply grow_disc.
+  - destruct (N.min pool_max n <? f_size s); intros H; inversion H; subst; [|reflexivity].
+    cbn [set_size f_discard]. apply shrink_disc.
+Qed.
+
+Lemma after_message_disc s : f_discard (fst (after_message s)) = f_discard s.
+Proof.
+  unfold after_message. destruct (f_drain s); [reflexivity| |reflexivity].
+  destruct (all_available (f_pool s) && (len (f_q s) =? 0)); reflexivity.
+Qed.
+
+Lemma with_after_disc r : f_discard (fst (with_after r)) = f_discard (fst r).
+Proof.
+  destruct r as [s0 e0]. unfold with_after. pose proof (after_message_disc s0) as H.
+  destruct (after_message s0) as [s1 e1]. exact H.
+Qed.
+
+Lemma finish_w_disc c s i only : f_discard (fst (finish_w c s i only)) = f_discard s.
+Proof.
+  unfold finish_w. destruct (f_stopped s); [reflexivity|].
+  destruct (find_w (f_pool s) i) as [w|]; [|reflexivity]. destruct (w_cur w) as [j|]; [|reflexivity].
+  destruct (match only with Some id => jid j =? id | None => true end); [|reflexivity].
+  destruct (worker_finished c s i) as [s0 e0] eqn:Ew. pose proof (with_after_disc (s0, e0)) as H.
+  destruct (with_after (s0, e0)) as [s1 e1]. cbn [fst] in *. rewrite H. eapply worker_finished_disc; eassumption.
+Qed.
+
+Lemma finish_list_disc c l : forall s, f_discard (fst (finish_list c s l)) = f_discard s.
+Proof.
+  induction l as [|[i id] r IH]; intros s; cbn [finish_list]; [reflexivity|].
+  pose proof (finish_w_disc c s i (Some id)) as H1. destruct (finish_w c s i (Some id)) as [s1 e1]. cbn [fst] in H1.
+  specialize (IH s1). destruct (finish_list c s1 r) as [s2 e2]. cbn [fst] in *. congruence.
+Qed.
+
+Definition is_update (o : fop) : bool := match o with FUpdate _ => true | _ => false end.
+
+Lemma step0_disc c s o : is_update o = false -> f_discard (fst (step0 c s o)) = f_discard s.
+Proof.
+  intros Ho. destruct o as [j|i| |i|i|n| |dt| | |i|i|d]; cbn [step0]; try discriminate.
+  - destruct (f_stopped s); [reflexivity|]. rewrite with_after_disc.
+    destruct (dispatch c s j) as [s0 e0] eqn:E. cbn [fst]. eapply dispatch_disc; eassumption.
+  - apply finish_w_disc.
+  - apply finish_list_disc.
+  - destruct (f_stopped s); [reflexivity|]. destruct (find_w (f_pool s) i) as [w|]; [|reflexivity].
+    destruct (w_cur w); [|reflexivity]. destruct (worker_died c s i) as [s' e] eqn:E. cbn [fst].
+    eapply worker_died_disc; eassumption.
+  - destruct (f_stopped s); [reflexivity|]. destruct (worker_died c s i) as [s' e] eqn:E. cbn [fst].
+    eapply worker_died_disc; eassumption.
+  - destruct (f_stopped s); [reflexivity|]. rewrite with_after_disc.
+    destruct (resize c s n) as [s0 e0] eqn:E. cbn [fst]. eapply resize_disc; eassumption.
+  - destruct (f_stopped s); [reflexivity|]. rewrite with_after_disc. reflexivity.
+  - reflexivity.
+  - reflexivity.
+  - destruct (f_stopped s); [reflexivity|]. pose proof (after_message_disc s) as H.
+    destruct (after_message s) as [s1 e1]. cbn [fst] in H. destruct (f_stopped s1); exact H.
+  - destruct (f_stopped s); [reflexivity|]. destruct (find_w (f_pool s) i) as [w|]; [|reflexivity].
+    destruct (w_alive w && match w_cur w with None => true | Some _ => false end); reflexivity.
+  - destruct (f_stopped s); [reflexivity|]. destruct (find_w (f_pool s) i) as [w|]; [|reflexivity].
+    destruct (w_alive w); [reflexivity|]. destruct (worker_died c s i) as [s' e] eqn:E. cbn [fst].
+    eapply worker_died_disc; eassumption.
+Qed.
+
+Lemma step_disc c s o : is_update o = false -> f_discard (fst (step c s o)) = f_discard s.
+Proof. unfold step. apply step0_disc. Qed.
+
+(* an UpdateSettings label installs the new settings and touches no queue (no retroactive
+   shedding); it is the only label that changes them *)
+Lemma step_update c s d :
+  f_stopped s = false ->
+  f_discard (fst (step c s (FUpdate d))) = d
+  /\ (f_stopped (fst (step c s (FUpdate d))) = false ->
+      f_q (fst (step c s (FUpdate d))) = f_q s /\ f_pool (fst (step c s (FUpdate d))) = f_pool s).
+Proof.
+  intros Hns. unfold step. cbn [step0]. rewrite Hns. unfold with_after.
+  pose proof (after_message_disc (set_discard s d)) as Hd.
+  unfold after_message in *. cbn [set_discard f_drain f_pool f_q] in *.
+  destruct (f_drain s).
+  - cbn [fst f_discard f_stopped f_q f_pool] in *. split; [reflexivity|intros _; split; reflexivity].
+  - destruct (all_available (f_pool s) && (len (f_q s) =? 0)); cbn [fst stop_factory f_discard f_stopped f_q f_pool set_dstate] in *.
+    + split; [reflexivity|discriminate].
+    + split; [reflexivity|intros _; split; reflexivity].
+  - cbn [fst stop_factory f_discard f_stopped]. split; [reflexivity|discriminate].
+Qed.
+
+Lemma step_QI c L m K s o :
+  f_discard s = Some (L, m) -> QI c L m K s -> QI c L m K (fst (step c s o)).
+Proof.
+  intros Hd HQ. unfold step, cfg_now. rewrite Hd.
+  exact (step_QI0 (with_discard c (Some (L, m))) L m K eq_refl s o HQ).
+Qed.
+
+Lemma state_after_QI c L m K ops : forall s,
+  forallb (fun o => negb (is_update o)) ops = true ->
+  f_discard s = Some (L, m) -> QI c L m K s ->
+  QI c L m K (state_after c s ops) /\ f_discard (state_after c s ops) = Some (L, m).
+Proof.
+  induction ops as [|o r IH]; intros s Hno Hd HQ; cbn [state_after]; [split; assumption|].
+  cbn [forallb] in Hno. apply andb_true_iff in Hno. destruct Hno as [Ho Hr]. apply negb_true_iff in Ho.
+  apply IH; [exact Hr| |].
+  - rewrite step_disc by exact Ho. exact Hd.
+  - apply step_QI; assumption.
+Qed.
+
+(* Limits.  Settings (L, m) in force -- from the start or installed by an UpdateSettings label at
+   any point of any history -- and every queue within max(L, K) at that moment (K = 0: within the
+   limit; K > 0: what a lowered limit found in the queues, nothing is shed retroactively).  Then
+   after EVERY further label sequence without another settings update (dispatch bursts,
+   completions, failures, kills, stopping workers, resizes, drain, time): the factory queue holds
+   at most max(L, K) discardable jobs, every living worker's own queue at most max(L, K) jobs when
+   the router queues at the workers, and a worker whose actor is stopping at most max(L', K) with
+   L' = L (Oldest) or max(L, 1) (Newest). *)
+Theorem queue_bound_from c L m K s ops :
+  forallb (fun o => negb (is_update o)) ops = true ->
+  f_discard s = Some (L, m) -> QI c L m K s ->
+  let s' := state_after c s ops in
+  len (filter (discardable c) (f_q s')) <= N.max L K
+  /\ (factory_queueing c = false -> forall w, In w (f_pool s') ->
+      len (w_q w) <= N.max (if w_alive w then L else match m with Oldest => L | Newest => N.max L 1 end) K).
+Proof.
+  intros Hno Hd HQ s'. destruct (state_after_QI c L m K ops s Hno Hd HQ) as [[H1 H2] _].
+  split; [exact H1|]. intros Hn w Hw. rewrite Forall_forall in H2. apply (H2 w Hw Hn).
+Qed.
+
+(* from the start, with the limit given at construction *)
 Theorem queue_bound c L m ops :
-  c_discard c = Some (L, m) ->
+  c_discard c = Some (L, m) -> forallb (fun o => negb (is_update o)) ops = true ->
   let s := state_after c (fst (init c 0)) ops in
   len (filter (discardable c) (f_q s)) <= L
   /\ (factory_queueing c = false -> forall w, In w (f_pool s) ->
       len (w_q w) <= (if w_alive w then L else match m with Oldest => L | Newest => N.max L 1 end)).
 Proof.
-  intros Hd s. assert (HQ : QI c L m s).
-  { unfold s. eapply state_after_QI; [exact Hd|]. first [apply init_QI | eapply init_QI; exact Hd]. }
-  destruct HQ as [H1 H2].
-  split; [exact H1|]. intros Hn w Hw. rewrite Forall_forall in H2. apply (H2 w Hw Hn).
+  intros Hd Hno s.
+  assert (Hi : f_discard (fst (init c 0)) = Some (L, m)).
+  { unfold init. cbn [fst set_size f_discard]. rewrite grow_disc. exact Hd. }
+  pose proof (queue_bound_from c L m 0 (fst (init c 0)) ops Hno Hi (init_QI c L m 0 0)) as [A B].
+  rewrite N.max_0_r in A. split; [exact A|]. intros Hn w Hw. specialize (B Hn w Hw). rewrite N.max_0_r in B. exact B.
 Qed.
 
 (* ------------------------------------------------------------------ *)
@@ -1074,11 +1296,11 @@ Proof.
   destruct (IH _ _ _ E2 A1) as (B1 & B2 & B3). split; [exact B1|split; [congruence|auto]].
 Qed.
 
-Lemma step_RI c s o : RI s ->
-  let s' := fst (step c s o) in
+Lemma step_RI0 c s o : RI s ->
+  let s' := fst (step0 c s o) in
   RI s' /\ (f_stopped s' = false -> f_stopped s = false /\ f_size s' = size_after o (f_size s)).
 Proof.
-  intros HR. cbn zeta. destruct o as [j|i| |i|i|n| |dt| | |i|i]; cbn [step size_after].
+  intros HR. cbn zeta. destruct o as [j|i| |i|i|n| |dt| | |i|i|d]; cbn [step0 size_after].
   11:{ destruct (f_stopped s) eqn:Hst; [cbn [fst]; split; [exact HR|congruence]|].
        destruct (find_w (f_pool s) i) as [w|] eqn:Ef; [|cbn [fst]; split; [exact HR|auto]].
        destruct (w_alive w && match w_cur w with None => true | Some _ => false end); [|cbn [fst]; split; [exact HR|auto]].
@@ -1097,6 +1319,11 @@ Proof.
        destruct (w_alive w); [cbn [fst]; split; [exact HR|auto]|].
        destruct (worker_died c s i) as [s' e] eqn:E. cbn [fst].
        destruct (worker_died_RI _ _ _ _ _ E Hst HR) as (A1 & A2 & A3). split; [exact A1|auto]. }
+  11:{ destruct (f_stopped s) eqn:Hst; [cbn [fst]; split; [exact HR|congruence]|].
+       destruct (with_after (set_discard s d, [])) as [s' e] eqn:E. cbn [fst].
+       assert (HR' : RI (fst (set_discard s d, @nil ev))) by exact HR.
+       destruct (with_after_RI _ _ _ E HR') as (A1 & A2 & A3). cbn [fst set_discard f_size] in *.
+       split; [exact A1|]. intros _. split; [reflexivity|exact A2]. }
   - destruct (f_stopped s) eqn:Hst; [cbn [fst]; split; [exact HR|congruence]|].
     destruct (with_after (dispatch c s j)) as [s' e] eqn:E. cbn [fst].
     destruct (dispatch c s j) as [s0 e0] eqn:Ed. pose proof (dispatch_frame _ _ _ _ _ Ed) as Fr.
@@ -1132,6 +1359,11 @@ Proof.
     destruct (after_message_RI _ _ _ E HR) as (A1 & A2 & A3).
     destruct (f_stopped s1) eqn:Hs1; cbn [fst]; (split; [exact A1|]); [congruence|auto].
 Qed.
+Lemma step_RI c s o : RI s ->
+  let s' := fst (step c s o) in
+  RI s' /\ (f_stopped s' = false -> f_stopped s = false /\ f_size s' = size_after o (f_size s)).
+Proof. unfold step. apply step_RI0. Qed.
+
 
 Lemma init_RI c t0 : RI (fst (init c t0)) /\ f_stopped (fst (init c t0)) = false /\ f_size (fst (init c t0)) = c_n0 c.
 Proof.
@@ -1276,14 +1508,17 @@ Proof.
   intros H Hc; inversion H; subst. eapply IH; [eassumption|]. eapply finish_w_closing; eassumption.
 Qed.
 
-Lemma step_closing c s o : closing s -> closing (fst (step c s o)).
+Lemma step_closing0 c s o : closing s -> closing (fst (step0 c s o)).
 Proof.
-  intros Hc. destruct o as [j|i| |i|i|n| |dt| | |i|i]; cbn [step].
+  intros Hc. destruct o as [j|i| |i|i|n| |dt| | |i|i|d]; cbn [step0].
   11:{ destruct (f_stopped s) eqn:Hst; [exact Hc|]. destruct (find_w (f_pool s) i) as [w|]; [|exact Hc].
        destruct (w_alive w && match w_cur w with None => true | Some _ => false end); exact Hc. }
   11:{ destruct (f_stopped s) eqn:Hst; [exact Hc|]. destruct (find_w (f_pool s) i) as [w|]; [|exact Hc].
        destruct (w_alive w); [exact Hc|]. destruct (worker_died c s i) as [s' e] eqn:E. cbn [fst].
        destruct Hc as [Hc|Hc]; [|congruence]. left. rewrite (worker_died_mode _ _ _ _ _ E). exact Hc. }
+  11:{ destruct (f_stopped s) eqn:Hst; [exact Hc|].
+       destruct (with_after (set_discard s d, [])) as [s' e] eqn:E. cbn [fst].
+       eapply with_after_closing; [exact E|]. exact Hc. }
   - destruct (f_stopped s) eqn:Hst; [exact Hc|].
     destruct (with_after (dispatch c s j)) as [s' e] eqn:E. cbn [fst].
     eapply with_after_closing; [exact E|]. destruct (dispatch c s j) as [s0 e0] eqn:Ed. cbn [fst].
@@ -1307,6 +1542,9 @@ Proof.
   - destruct (f_stopped s) eqn:Hst; [exact Hc|]. destruct (after_message s) as [s1 e1] eqn:E.
     pose proof (after_message_closing _ _ _ E Hc). destruct (f_stopped s1); exact H.
 Qed.
+Lemma step_closing c s o : closing s -> closing (fst (step c s o)).
+Proof. unfold step. apply step_closing0. Qed.
+
 
 Lemma state_after_closing c ops : forall s, closing s -> closing (state_after c s ops).
 Proof. induction ops as [|o r IH]; intros s Hc; cbn [state_after]; [exact Hc|]. apply IH, step_closing, Hc. Qed.
@@ -1321,13 +1559,13 @@ Qed.
 
 (* once DrainRequests has been processed (or the factory is gone) a dispatch is never accepted:
    it is reported as Shutdown and rejected, or dropped with the dead factory's mailbox *)
-Lemma drain_refuses_step c s j : closing s ->
-  existsb is_accept_ev (snd (step c s (FDispatch j))) = false
-  /\ (f_stopped s = true -> snd (step c s (FDispatch j)) = [EDropped (jid j)])
+Lemma drain_refuses_step0 c s j : closing s ->
+  existsb is_accept_ev (snd (step0 c s (FDispatch j))) = false
+  /\ (f_stopped s = true -> snd (step0 c s (FDispatch j)) = [EDropped (jid j)])
   /\ (f_stopped s = false ->
-      exists rest, snd (step c s (FDispatch j)) = EDiscard (jid j) Shutdown :: EReject (jid j) :: rest).
+      exists rest, snd (step0 c s (FDispatch j)) = EDiscard (jid j) Shutdown :: EReject (jid j) :: rest).
 Proof.
-  intros Hc. cbn [step]. destruct (f_stopped s) eqn:Hst.
+  intros Hc. cbn [step0]. destruct (f_stopped s) eqn:Hst.
   { cbn. repeat split; [discriminate]. }
   destruct Hc as [Hc|Hc]; [|congruence].
   unfold dispatch. destruct (f_drain s) eqn:Ed; [congruence| |];
@@ -1338,6 +1576,13 @@ Proof.
       [apply (stop_events_no_accept (set_dstate s Drained))|reflexivity].
   - intros H; inversion H; subst. apply stop_events_no_accept.
 Qed.
+Lemma drain_refuses_step c s j : closing s ->
+  existsb is_accept_ev (snd (step c s (FDispatch j))) = false
+  /\ (f_stopped s = true -> snd (step c s (FDispatch j)) = [EDropped (jid j)])
+  /\ (f_stopped s = false ->
+      exists rest, snd (step c s (FDispatch j)) = EDiscard (jid j) Shutdown :: EReject (jid j) :: rest).
+Proof. unfold step. apply drain_refuses_step0. Qed.
+
 
 (* the factory stops exactly when, after a processed message, every worker is available and the
    queue is empty; then the stopped hook runs and nothing is left to report *)
@@ -1366,7 +1611,7 @@ Theorem drain_refuses c ops1 ops2 j :
   existsb is_accept_ev (snd (step c s (FDispatch j))) = false.
 Proof.
   intros s. apply drain_refuses_step. unfold s. apply state_after_closing.
-  set (s1 := state_after c (fst (init c 0)) ops1). cbn [step].
+  set (s1 := state_after c (fst (init c 0)) ops1). unfold step. cbn [step0].
   destruct (f_stopped s1) eqn:Hst; [right; exact Hst|].
   destruct (with_after (set_dstate s1 Draining, [EHook HDraining])) as [s' e] eqn:E. cbn [fst].
   eapply with_after_closing; [exact E|]. left. cbn. discriminate.
@@ -1624,18 +1869,18 @@ Qed.
 
 (* one label from a living factory: a draining hook iff the label is DrainRequests, then the
    stopped hook iff the factory stops in this step; a stopped factory runs no hook and stays stopped *)
-Lemma step_hooks c s o :
-  (f_stopped s = true -> hooks_of (snd (step c s o)) = [] /\ f_stopped (fst (step c s o)) = true)
+Lemma step_hooks0 c s o :
+  (f_stopped s = true -> hooks_of (snd (step0 c s o)) = [] /\ f_stopped (fst (step0 c s o)) = true)
   /\ (f_stopped s = false ->
-      hooks_of (snd (step c s o)) = drain_hook o ++ stopped_hook (f_stopped (fst (step c s o)))).
+      hooks_of (snd (step0 c s o)) = drain_hook o ++ stopped_hook (f_stopped (fst (step0 c s o)))).
 Proof.
   split; intros Hst.
-  - destruct o; cbn [step]; unfold finish_w; try rewrite Hst; try (split; [reflexivity|exact Hst]).
+  - destruct o; cbn [step0]; unfold finish_w; try rewrite Hst; try (split; [reflexivity|exact Hst]).
     assert (Hrest : forall l', finish_list c s l' = (s, [])).
     { induction l' as [|[i' id'] r' IH']; cbn [finish_list]; [reflexivity|].
       unfold finish_w. rewrite Hst. rewrite IH'. reflexivity. }
     rewrite Hrest. split; [reflexivity|exact Hst].
-  - destruct o as [j|i| |i|i|n| |dt| | |i|i]; cbn [step drain_hook app]; try rewrite Hst.
+  - destruct o as [j|i| |i|i|n| |dt| | |i|i|d]; cbn [step0 drain_hook app]; try rewrite Hst.
     11:{ destruct (find_w (f_pool s) i) as [w|]; [|cbn [fst snd]; rewrite Hst; reflexivity].
          destruct (w_alive w && match w_cur w with None => true | Some _ => false end);
            cbn [fst snd set_pool f_stopped]; rewrite Hst; reflexivity. }
@@ -1643,6 +1888,7 @@ Proof.
          destruct (w_alive w); [cbn [fst snd]; rewrite Hst; reflexivity|].
          destruct (worker_died c s i) as [s' e] eqn:E. destruct (worker_died_quiet _ _ _ _ _ E) as [Hq Hs].
          cbn [fst snd]. rewrite Hq, Hs, Hst. reflexivity. }
+    11:{ apply (with_after_hooks (set_discard s d, [])); [exact Hst|reflexivity]. }
     + destruct (dispatch c s j) as [s0 e0] eqn:Ed. pose proof (dispatch_quiet _ _ _ _ _ Ed) as Hq.
       destruct (dispatch_frame _ _ _ _ _ Ed) as (_ & _ & F3 & _).
       apply (with_after_hooks (s0, e0)); [cbn [fst]; congruence|exact Hq].
@@ -1666,6 +1912,12 @@ Proof.
       * rewrite hooks_app, H. reflexivity.
       * reflexivity.
 Qed.
+Lemma step_hooks c s o :
+  (f_stopped s = true -> hooks_of (snd (step c s o)) = [] /\ f_stopped (fst (step c s o)) = true)
+  /\ (f_stopped s = false ->
+      hooks_of (snd (step c s o)) = drain_hook o ++ stopped_hook (f_stopped (fst (step c s o)))).
+Proof. unfold step. apply step_hooks0. Qed.
+
 
 Definition count_drains (ops : list fop) : nat :=
   length (filter (fun o => match o with FDrain => true | _ => false end) ops).
@@ -1740,15 +1992,16 @@ Proof.
   specialize (IH s1 H1). destruct (finish_list c s1 r) as [s2 e2]. exact IH.
 Qed.
 
-Lemma step_calm c s o : is_drain o = false -> calm s -> calm (fst (step c s o)).
+Lemma step_calm0 c s o : is_drain o = false -> calm s -> calm (fst (step0 c s o)).
 Proof.
-  intros Ho Hc. pose proof Hc as [H1 H2]. destruct o as [j|i| |i|i|n| |dt| | |i|i]; cbn [step]; try discriminate; try rewrite H2.
+  intros Ho Hc. pose proof Hc as [H1 H2]. destruct o as [j|i| |i|i|n| |dt| | |i|i|d]; cbn [step0]; try discriminate; try rewrite H2.
   10:{ destruct (find_w (f_pool s) i) as [w|]; [|exact Hc].
        destruct (w_alive w && match w_cur w with None => true | Some _ => false end); [|exact Hc].
        cbn [fst]. split; assumption. }
   10:{ destruct (find_w (f_pool s) i) as [w|]; [|exact Hc]. destruct (w_alive w); [exact Hc|].
        destruct (worker_died c s i) as [s' e] eqn:E. cbn [fst].
        destruct (worker_died_quiet _ _ _ _ _ E) as [_ Hs]. split; [rewrite (worker_died_mode _ _ _ _ _ E); exact H1|congruence]. }
+  10:{ apply (with_after_calm (set_discard s d, [])). exact Hc. }
   - destruct (dispatch c s j) as [s0 e0] eqn:Ed. apply (with_after_calm (s0, e0)). cbn [fst].
     destruct (dispatch_frame _ _ _ _ _ Ed) as (_ & F2 & F3 & _). split; congruence.
   - apply finish_w_calm. exact Hc.
@@ -1764,6 +2017,9 @@ Proof.
   - exact Hc.
   - rewrite (not_draining_never_stops s H1). cbn [fst]. rewrite H2. exact Hc.
 Qed.
+Lemma step_calm c s o : is_drain o = false -> calm s -> calm (fst (step c s o)).
+Proof. unfold step. apply step_calm0. Qed.
+
 
 Lemma stopped_needs_drain c ops : forall s, calm s ->
   f_stopped (state_after c s ops) = true -> (1 <= drains_alive c s ops)%nat.
@@ -2033,17 +2289,17 @@ Definition step_answer (o : fop) (l : list ev) : Prop :=
   | _ => l = []
   end.
 
-Lemma step_sp c s o :
+Lemma step_sp0 c s o :
   (f_stopped s = true ->
-     sp (snd (step c s o)) = match o with FDispatch j => [EDropped (jid j)] | _ => [] end
-     /\ f_stopped (fst (step c s o)) = true)
+     sp (snd (step0 c s o)) = match o with FDispatch j => [EDropped (jid j)] | _ => [] end
+     /\ f_stopped (fst (step0 c s o)) = true)
   /\ (f_stopped s = false ->
-      exists l, step_answer o l /\ sp (snd (step c s o)) = l ++ stop_evs (f_stopped (fst (step c s o)))).
+      exists l, step_answer o l /\ sp (snd (step0 c s o)) = l ++ stop_evs (f_stopped (fst (step0 c s o)))).
 Proof.
   split; intros Hst.
-  - destruct o; cbn [step]; unfold finish_w; try rewrite Hst; try (split; [reflexivity|exact Hst]).
+  - destruct o; cbn [step0]; unfold finish_w; try rewrite Hst; try (split; [reflexivity|exact Hst]).
     rewrite (finish_list_stopped c _ s Hst). split; [reflexivity|exact Hst].
-  - destruct o as [j|i| |i|i|n| |dt| | |i|i]; cbn [step step_answer]; try rewrite Hst.
+  - destruct o as [j|i| |i|i|n| |dt| | |i|i|d]; cbn [step0 step_answer]; try rewrite Hst.
     11:{ exists []. split; [reflexivity|].
          destruct (find_w (f_pool s) i) as [w|]; [|cbn [fst snd]; rewrite Hst; reflexivity].
          destruct (w_alive w && match w_cur w with None => true | Some _ => false end);
@@ -2053,6 +2309,8 @@ Proof.
          destruct (w_alive w); [cbn [fst snd]; rewrite Hst; reflexivity|].
          destruct (worker_died c s i) as [s' e] eqn:E. destruct (worker_died_quiet _ _ _ _ _ E) as [_ Hs].
          cbn [fst snd]. rewrite (worker_died_sp _ _ _ _ _ E), Hs, Hst. reflexivity. }
+    11:{ exists []. split; [reflexivity|].
+         pose proof (with_after_sp (set_discard s d, [])) as H. cbn [fst snd] in H. rewrite H by exact Hst. reflexivity. }
     + destruct (dispatch c s j) as [s0 e0] eqn:Ed. pose proof (dispatch_sp _ _ _ _ _ Ed) as Hq.
       destruct (dispatch_frame _ _ _ _ _ Ed) as (_ & _ & F3 & _).
       exists (sp e0). split; [exact Hq|]. apply (with_after_sp (s0, e0)). cbn [fst]. congruence.
@@ -2081,6 +2339,14 @@ Proof.
       * rewrite sp_app, H. reflexivity.
       * reflexivity.
 Qed.
+Lemma step_sp c s o :
+  (f_stopped s = true ->
+     sp (snd (step c s o)) = match o with FDispatch j => [EDropped (jid j)] | _ => [] end
+     /\ f_stopped (fst (step c s o)) = true)
+  /\ (f_stopped s = false ->
+      exists l, step_answer o l /\ sp (snd (step c s o)) = l ++ stop_evs (f_stopped (fst (step c s o)))).
+Proof. unfold step. apply step_sp0. Qed.
+
 
 (* ------------------------------------------------------------------ *)
 (* the oracle accepts the model's own runs: clauses hooks_order and drain_refuses *)
@@ -2223,12 +2489,15 @@ Proof.
   destruct seen; [intros [->|H]; [left; reflexivity|right; apply (IH _ _ H)]|intros H; right; apply (IH _ _ H)].
 Qed.
 
-Lemma drain_closing c s : closing (fst (step c s FDrain)).
+Lemma drain_closing0 c s : closing (fst (step0 c s FDrain)).
 Proof.
-  cbn [step]. destruct (f_stopped s) eqn:Hst; [right; exact Hst|].
+  cbn [step0]. destruct (f_stopped s) eqn:Hst; [right; exact Hst|].
   destruct (with_after (set_dstate s Draining, [EHook HDraining])) as [s' e] eqn:E. cbn [fst].
   eapply with_after_closing; [exact E|]. left. cbn. discriminate.
 Qed.
+Lemma drain_closing c s : closing (fst (step c s FDrain)).
+Proof. unfold step. apply drain_closing0. Qed.
+
 
 Lemma NoDup_app_r {A} (a b : list A) : NoDup (a ++ b) -> NoDup b.
 Proof. induction a as [|x a IH]; cbn [app]; [exact (fun h => h)|]. intros H. inversion H; subst. auto. Qed.
@@ -2243,7 +2512,7 @@ Proof.
   destruct (step c s o) as [s1 e1] eqn:Es. cbn [fst snd concat] in *. rewrite existsb_app.
   assert (Hnd' : NoDup (map jid (jobs_of r))).
   { unfold jobs_of in *. cbn [flat_map] in Hnd. rewrite map_app in Hnd. apply NoDup_app_r in Hnd. exact Hnd. }
-  destruct o as [j|i| |i|i|n| |dt| | |i|i]; cbn [after_drain_ids] in Hin;
+  destruct o as [j|i| |i|i|n| |dt| | |i|i|d]; cbn [after_drain_ids] in Hin;
     try (apply orb_false_iff; split;
          [destruct (existsb (is_accept id) e1) eqn:E; [destruct (Ha eq_refl) as (_ & j' & Hj & _); discriminate|reflexivity]
          |apply (IH s1 seen Hnd' (fun h => Hsc (Hcl h)) id Hin)]).
@@ -2280,4 +2549,13 @@ Proof.
   unfold factory_run. destruct (init_calm c 0) as [_ He]. destruct (init c 0) as [s0 e0]. cbn [snd] in He. subst e0.
   cbn [concat app existsb is_accept orb].
   apply (run_drain_refuses c ops s0 false Hnd ltac:(discriminate) id Hin).
+Qed.
+
+(* Oldest mode catches up at once: whatever a worker's queue held before (e.g. under a larger
+   limit that an UpdateSettings has just lowered), after the next enqueue it holds at most L *)
+Lemma enqueue_oldest_catches_up c w j L :
+  wsettings c = Some (L, Oldest) -> len (w_q (fst (enqueue_job c w j))) <= L.
+Proof.
+  intros Hs. rewrite enqueue_job_unfold, Hs. destruct (enq_core w j) as [w1 e1]. cbn [fst set_q w_q].
+  unfold len. rewrite skipn_length. lia.
 Qed.
